@@ -28,7 +28,13 @@ LEVEL_TEXT = ("Lean, for every offset-free plan the model can produce - sound or
               "recursion, gcd-root reduction and re-raising), so a directly settled conversion is exact, there-and-back is the "
               "identity and a route via an intermediate unit agrees with the direct one (direct_conversion_exact, "
               "direct_round_trip, direct_route_independent); hypotheses shown inhabited on the regenerated registries "
-              "(direct_fragment_inhabited). Tied to the code by differential execution and the oracle on triples of units.")
+              "(direct_fragment_inhabited). THROUGH THE FACTOR PLANNER (Proofs/PlanSingle, PlanSimple): for products of powers "
+              "of base units with any prefixes whose dimensions are fundamental and pairwise independent and whose key-by-key "
+              "pairing exhausts both sides - km/h -> m/s, kg*m^2 -> lb*ft^2, cm^3 -> in^3, kilometre -> mile - whatever convert "
+              "returns is exact (convert_simple_exact / simple_conversion_exact; convert_single_exact for one factor with the "
+              "pairing discharged): _replace_factors is a no-op there, _match_factors is the functional matchSpec, a potential "
+              "over the factor dicts ties the paired steps to the sizes, _inline_paths is sound step by step; inhabited on the "
+              "regenerated registries (single_factor_inhabited, simple_inhabited). Tied to the code by differential execution and the oracle on triples of units.")
 LEVEL_NOTE = ("Round trip / route independence for arbitrary units inherit C04's partiality (same known findings). Float self-"
               "conversion of a prefixed unit multiplies by p and then by 1/p (one ulp); the oracle uses 1e-12.")
 TECHNIQUE = "Lean 4 proofs (linearity of plans; self-conversion of the planner; path search proved sound, direct conversions exact over all histories; conditional round-trip/route elsewhere) + kernel-evaluated family + differential correspondence + oracle"
@@ -40,6 +46,10 @@ THEOREMS = [
     "Measured.findPath_sound", "Measured.findPath_total", "Measured.equate_graphOK", "Measured.reach_graphOK",
     "Measured.C05.direct_conversion_exact", "Measured.C05.direct_round_trip", "Measured.C05.direct_route_independent",
     "Measured.Obligations.Direct.c0_graphOK", "Measured.Obligations.Direct.direct_fragment_inhabited",
+    "Measured.convert_single_exact", "Measured.convert_simple_exact", "Measured.match_loop", "Measured.inlinePaths_sound",
+    "Measured.C05.single_factor_conversion_exact", "Measured.C05.simple_conversion_exact",
+    "Measured.Obligations.Direct.shipped_fundamental_dimensions", "Measured.Obligations.Direct.single_factor_inhabited",
+    "Measured.Obligations.Direct.simple_inhabited",
 ]
 LEAN_TARGETS = ["Props.C05", "Obligations.C05", "Obligations.C05Direct"]
 QUICK = {"chunks": 4, "ops": 1500}
